@@ -13,6 +13,9 @@ CLAIMED = {
     'C03': ('DESIGN.md 4 C03', E1,
             'Answer sets, per-answer additionals, TTLs and flush marking of QueryHandler.async_response equal a declarative reference responder for every enumerated (registry script, questions, known answers) shape, for all service TTLs 1..2^31-1 and known-answer TTLs 0..2^32-1 (half-TTL boundary solver-decided).',
             'Trusted: as C05 plus the reference responder in vkit/responder.py. Question types and names are enumerated, not symbolic.'),
+    'C08': ('DESIGN.md 4 C08', E1,
+            'Three complete goodbyes 125 ms apart (address / NSEC only when no remaining service shares the host) and no withdrawn record with TTL > 0 after the third, for a query and the withdrawal at independent symbolic offsets 0..2000 ms in either order, all jitter draws and sighting ages; unregister and unregister-all, 1..2 services.',
+            'Trusted: as C05 plus timers firing exactly on time. close() of the whole instance is C17.'),
     'C09': ('DESIGN.md 4 C09', E1,
             'Probe schedule and contents, conflict outcome (exception / first free -N), announcement schedule, record set, TTLs and flush marking of the real async_register_service coroutine for all start instants, service TTLs, conflict arrival offsets 0..1000 ms and conflict TTLs, over enumerated address mixes / taken-name chains.',
             'Trusted: as C05 plus asyncio.timeout/Event/sleep running on the fake loop. A conflict arriving exactly at the last check instant is accepted either way.'),
@@ -25,6 +28,9 @@ CLAIMED = {
     'C12': ('DESIGN.md 4 C12', E1,
             'Send times of every multicast answer, for enumerated query sequences (<= 3 queries, probes, truncated trains), lie inside the per-query windows of the statement for all arrival gaps 0..2000 ms, all jitter draws and all sighting ages 0..2500 ms; liveness, safety, economy and batch uniqueness per obligation.',
             'Trusted: as C05 plus timers firing exactly on time. The one-second rule is checked for answers, not for records riding in the additional section.'),
+    'C04': ('DESIGN.md 4 C04', E1,
+            'Per (type, instance) Added/Removed alternation, equality of the reported-live set with the pointer set of a section-10 model and of the real cache after every event, and visibility of the triggering datagram from inside add_service, for enumerated histories (<= 4 events incl. purge ticks, browser created early or late) with all TTLs and gaps symbolic.',
+            'Trusted: as C05. In-loop browser flavour only (the threaded ServiceBrowser hands the same events to a queue).'),
     'C05': ('DESIGN.md 4 C05', E1,
             'Every lookup path of DNSCache agrees with a list-based RFC 6762 section 10 model after every event of each enumerated history '
             '(<= 4 events, <= 4 records per datagram), for all TTLs 0..2^32-1, all start instants and all gaps (solver-decided per path); purge reports exactly the elapsed records.',
